@@ -425,6 +425,13 @@ pub fn check_step(before: &Snap, op: &Op, after: &Snap, clip_override: Option<([
                 }
             }
         }
+        // mask() under a non-invertible transform: "mask ignores the transform" and "a
+        // non-invertible transform draws nothing" contradict each other; drawing nothing at
+        // all is admitted as well
+        let singular = before.xf[0] * before.xf[3] - before.xf[1] * before.xf[2] == 0.0;
+        if !found.is_empty() && singular && matches!(op, Op::Mask(..)) && ta == tb {
+            return Ok(st);
+        }
         if !found.is_empty() {
             let first = found.remove(0);
             OTHERS.with(|o| *o.borrow_mut() = found);
